@@ -252,8 +252,9 @@ fn spec_size_ok(typ: u16, size: usize) -> bool {
     }
 }
 /// Constrain the N-byte region to a valid header with a well-formed tag sequence
-/// (kani::assume) and return the specification's walk over it.
-fn spec_walk<const N: usize>(b: &[u8; N]) -> Walk {
+/// (kani::assume) and return the specification's walk over it.  `only` restricts
+/// the tag types to two kinds (typed-getter harnesses); None = all 11 types.
+fn spec_walk<const N: usize>(b: &[u8; N], only: Option<(u16, u16)>) -> Walk {
     kani::assume(le32(b, 0) == SPEC_MAGIC);
     kani::assume(le32(b, 4) == 0 || le32(b, 4) == 4);
     kani::assume(le32(b, 8) as usize == N);
@@ -271,6 +272,9 @@ fn spec_walk<const N: usize>(b: &[u8; N]) -> Walk {
         let size = le32(b, off + 4) as usize;
         // enumerated fields hold defined values; sizes valid for the kind; inside the region
         kani::assume(typ <= 10 && flags <= 1);
+        if let Some((wanted, other)) = only {
+            kani::assume(typ == wanted || typ == other);
+        }
         kani::assume(spec_size_ok(typ, size));
         kani::assume(off + round8(size) <= N);
         if typ == 4 {
@@ -302,7 +306,7 @@ fn first_of(w: &Walk, typ: u16) -> Option<usize> {
 fn check_iter<const N: usize>() {
     let region = AlignedBytes(kani::any::<[u8; N]>());
     let b = &region.0;
-    let w = spec_walk(b);
+    let w = spec_walk(b, None);
     let h = unsafe { Multiboot2Header::load(b.as_ptr().cast()) }.unwrap();
     let mut it = h.iter();
     let mut k = 0;
@@ -322,7 +326,7 @@ fn check_iter<const N: usize>() {
     assert!(it.next().is_none());
     kani::cover!(w.n == (N - 16) / 8);
     kani::cover!(w.n == 1);
-    kani::cover!(w.n >= 2 && w.typ[0] == 1 && w.size[0] == 12);
+    kani::cover!(w.n >= 1 && w.typ[0] == 1 && w.size[0] == 12);
 }
 #[kani::proof]
 #[kani::unwind(6)]
@@ -340,62 +344,216 @@ pub fn k_mb2hdr_iter_48() {
     check_iter::<48>();
 }
 
-macro_rules! check_getter {
-    ($h:expr, $getter:ident, $num:expr, $w:expr, $b:expr) => {
-        match ($h.$getter(), first_of($w, $num)) {
+// Typed getters: each returns the FIRST tag of its type in walk order and None
+// when absent.  One harness per getter and region length (40 and 48 bytes =
+// up to 3 / 4 tags); tag types symbolic among {wanted, other}, sizes symbolic
+// but valid for the kind (other = information request => sizes 8, 12, 16, ...).
+// Bounded by the region length; all contents.
+macro_rules! getter_body {
+    ($n:expr, $getter:ident, $wanted:expr, $other:expr, $t:ident, $b:ident, $off:ident, $extra:block) => {{
+        let region = AlignedBytes(kani::any::<[u8; $n]>());
+        let $b = &region.0;
+        let w = spec_walk($b, Some(($wanted, $other)));
+        let h = unsafe { Multiboot2Header::load($b.as_ptr().cast()) }.unwrap();
+        let exp = first_of(&w, $wanted);
+        match (h.$getter(), exp) {
             (None, None) => {}
-            (Some(t), Some(off)) => {
-                assert!(core::ptr::addr_of!(*t).cast::<u8>() == $b[off..].as_ptr());
-                assert!(t.typ() as u16 == $num);
-                assert!(t.size() == le32($b, off + 4));
+            (Some($t), Some($off)) => {
+                assert!(core::ptr::addr_of!(*$t).cast::<u8>() == $b[$off..].as_ptr());
+                assert!($t.typ() as u16 == $wanted);
+                assert!($t.size() == le32($b, $off + 4));
+                assert!(core::mem::size_of_val($t) == round8(le32($b, $off + 4) as usize));
+                $extra
             }
             _ => assert!(false),
         }
-    };
+        (w, exp)
+    }};
 }
-/// each typed getter returns the FIRST tag of its type in walk order, None when absent
-fn check_getters<const N: usize>() {
-    let region = AlignedBytes(kani::any::<[u8; N]>());
-    let b = &region.0;
-    let w = spec_walk(b);
-    let h = unsafe { Multiboot2Header::load(b.as_ptr().cast()) }.unwrap();
-    check_getter!(h, information_request_tag, 1, &w, b);
-    check_getter!(h, address_tag, 2, &w, b);
-    check_getter!(h, entry_address_tag, 3, &w, b);
-    check_getter!(h, console_flags_tag, 4, &w, b);
-    check_getter!(h, framebuffer_tag, 5, &w, b);
-    check_getter!(h, module_align_tag, 6, &w, b);
-    check_getter!(h, efi_boot_services_tag, 7, &w, b);
-    check_getter!(h, entry_address_efi32_tag, 8, &w, b);
-    check_getter!(h, entry_address_efi64_tag, 9, &w, b);
-    check_getter!(h, relocatable_tag, 10, &w, b);
-    // field decode through a getter (first console tag / first information request)
-    if let (Some(t), Some(off)) = (h.console_flags_tag(), first_of(&w, 4)) {
-        assert!(t.console_flags() as u32 == le32(b, off + 8));
-    }
-    if let (Some(t), Some(off)) = (h.information_request_tag(), first_of(&w, 1)) {
+#[kani::proof]
+#[kani::unwind(6)]
+pub fn k_mb2hdr_get_inforeq_40() {
+    let (w, exp) = getter_body!(40, information_request_tag, 1, 3, t, b, off, {
         assert!(t.requests().len() == (le32(b, off + 4) as usize - 8) / 4);
         assert!(t.requests().as_ptr().cast::<u8>() == b[off + 8..].as_ptr());
-    }
-    // duplicates: a second tag of a type does not shadow the first
-    kani::cover!(w.n >= 2 && w.typ[0] == 6 && w.typ[1] == 6);
-    kani::cover!(w.n >= 2 && w.typ[0] == 7 && w.typ[1] == 3);
-    kani::cover!(w.n >= 1 && w.typ[0] == 1 && w.size[0] == 16);
+    });
+    kani::cover!(exp.is_none() && w.n >= 1); // absent
+    kani::cover!(exp == Some(16)); // present as the first tag
+    kani::cover!(exp.is_some() && w.typ[0] != 1); // first of its type is not the first tag
+    kani::cover!(w.n >= 2 && w.typ[0] == 1 && w.typ[1] == 1); // duplicate: the first one wins
 }
 #[kani::proof]
 #[kani::unwind(6)]
-pub fn k_mb2hdr_getters_32() {
-    check_getters::<32>();
+pub fn k_mb2hdr_get_inforeq_48() {
+    let (w, exp) = getter_body!(48, information_request_tag, 1, 3, t, b, off, {
+        assert!(t.requests().len() == (le32(b, off + 4) as usize - 8) / 4);
+        assert!(t.requests().as_ptr().cast::<u8>() == b[off + 8..].as_ptr());
+    });
+    kani::cover!(exp.is_none() && w.n >= 1); // absent
+    kani::cover!(exp == Some(16)); // present as the first tag
+    kani::cover!(exp.is_some() && w.typ[0] != 1); // first of its type is not the first tag
+    kani::cover!(w.n >= 2 && w.typ[0] == 1 && w.typ[1] == 1); // duplicate: the first one wins
 }
 #[kani::proof]
 #[kani::unwind(6)]
-pub fn k_mb2hdr_getters_40() {
-    check_getters::<40>();
+pub fn k_mb2hdr_get_address_40() {
+    let (w, exp) = getter_body!(40, address_tag, 2, 1, t, b, off, {
+        assert!(t.bss_end_addr() == le32(b, off + 20) && t.header_addr() == le32(b, off + 8));
+    });
+    kani::cover!(exp.is_none() && w.n >= 1); // absent
+    kani::cover!(exp == Some(16)); // present as the first tag
 }
 #[kani::proof]
 #[kani::unwind(6)]
-pub fn k_mb2hdr_getters_48() {
-    check_getters::<48>();
+pub fn k_mb2hdr_get_address_48() {
+    let (w, exp) = getter_body!(48, address_tag, 2, 1, t, b, off, {
+        assert!(t.bss_end_addr() == le32(b, off + 20) && t.header_addr() == le32(b, off + 8));
+    });
+    kani::cover!(exp.is_none() && w.n >= 1); // absent
+    kani::cover!(exp == Some(16)); // present as the first tag
+    kani::cover!(exp.is_some() && w.typ[0] != 2); // first of its type is not the first tag
+}
+#[kani::proof]
+#[kani::unwind(6)]
+pub fn k_mb2hdr_get_entry_40() {
+    let (w, exp) = getter_body!(40, entry_address_tag, 3, 1, t, b, off, {});
+    kani::cover!(exp.is_none() && w.n >= 1); // absent
+    kani::cover!(exp == Some(16)); // present as the first tag
+    kani::cover!(exp.is_some() && w.typ[0] != 3); // first of its type is not the first tag
+}
+#[kani::proof]
+#[kani::unwind(6)]
+pub fn k_mb2hdr_get_entry_48() {
+    let (w, exp) = getter_body!(48, entry_address_tag, 3, 1, t, b, off, {});
+    kani::cover!(exp.is_none() && w.n >= 1); // absent
+    kani::cover!(exp == Some(16)); // present as the first tag
+    kani::cover!(exp.is_some() && w.typ[0] != 3); // first of its type is not the first tag
+    kani::cover!(w.n >= 2 && w.typ[0] == 3 && w.typ[1] == 3); // duplicate: the first one wins
+}
+#[kani::proof]
+#[kani::unwind(6)]
+pub fn k_mb2hdr_get_console_40() {
+    let (w, exp) = getter_body!(40, console_flags_tag, 4, 1, t, b, off, {
+        assert!(t.console_flags() as u32 == le32(b, off + 8));
+    });
+    kani::cover!(exp.is_none() && w.n >= 1); // absent
+    kani::cover!(exp == Some(16)); // present as the first tag
+    kani::cover!(exp.is_some() && w.typ[0] != 4); // first of its type is not the first tag
+}
+#[kani::proof]
+#[kani::unwind(6)]
+pub fn k_mb2hdr_get_console_48() {
+    let (w, exp) = getter_body!(48, console_flags_tag, 4, 1, t, b, off, {
+        assert!(t.console_flags() as u32 == le32(b, off + 8));
+    });
+    kani::cover!(exp.is_none() && w.n >= 1); // absent
+    kani::cover!(exp == Some(16)); // present as the first tag
+    kani::cover!(exp.is_some() && w.typ[0] != 4); // first of its type is not the first tag
+    kani::cover!(w.n >= 2 && w.typ[0] == 4 && w.typ[1] == 4); // duplicate: the first one wins
+}
+#[kani::proof]
+#[kani::unwind(6)]
+pub fn k_mb2hdr_get_framebuffer_40() {
+    let (w, exp) = getter_body!(40, framebuffer_tag, 5, 1, t, b, off, {});
+    kani::cover!(exp.is_none() && w.n >= 1); // absent
+    kani::cover!(exp == Some(16)); // present as the first tag
+}
+#[kani::proof]
+#[kani::unwind(6)]
+pub fn k_mb2hdr_get_framebuffer_48() {
+    let (w, exp) = getter_body!(48, framebuffer_tag, 5, 1, t, b, off, {});
+    kani::cover!(exp.is_none() && w.n >= 1); // absent
+    kani::cover!(exp == Some(16)); // present as the first tag
+    kani::cover!(exp.is_some() && w.typ[0] != 5); // first of its type is not the first tag
+}
+#[kani::proof]
+#[kani::unwind(6)]
+pub fn k_mb2hdr_get_module_align_40() {
+    let (w, exp) = getter_body!(40, module_align_tag, 6, 1, t, b, off, {});
+    kani::cover!(exp.is_none() && w.n >= 1); // absent
+    kani::cover!(exp == Some(16)); // present as the first tag
+    kani::cover!(exp.is_some() && w.typ[0] != 6); // first of its type is not the first tag
+    kani::cover!(w.n >= 2 && w.typ[0] == 6 && w.typ[1] == 6); // duplicate: the first one wins
+}
+#[kani::proof]
+#[kani::unwind(6)]
+pub fn k_mb2hdr_get_module_align_48() {
+    let (w, exp) = getter_body!(48, module_align_tag, 6, 1, t, b, off, {});
+    kani::cover!(exp.is_none() && w.n >= 1); // absent
+    kani::cover!(exp == Some(16)); // present as the first tag
+    kani::cover!(exp.is_some() && w.typ[0] != 6); // first of its type is not the first tag
+    kani::cover!(w.n >= 2 && w.typ[0] == 6 && w.typ[1] == 6); // duplicate: the first one wins
+}
+#[kani::proof]
+#[kani::unwind(6)]
+pub fn k_mb2hdr_get_efi_bs_40() {
+    let (w, exp) = getter_body!(40, efi_boot_services_tag, 7, 1, t, b, off, {});
+    kani::cover!(exp.is_none() && w.n >= 1); // absent
+    kani::cover!(exp == Some(16)); // present as the first tag
+    kani::cover!(exp.is_some() && w.typ[0] != 7); // first of its type is not the first tag
+    kani::cover!(w.n >= 2 && w.typ[0] == 7 && w.typ[1] == 7); // duplicate: the first one wins
+}
+#[kani::proof]
+#[kani::unwind(6)]
+pub fn k_mb2hdr_get_efi_bs_48() {
+    let (w, exp) = getter_body!(48, efi_boot_services_tag, 7, 1, t, b, off, {});
+    kani::cover!(exp.is_none() && w.n >= 1); // absent
+    kani::cover!(exp == Some(16)); // present as the first tag
+    kani::cover!(exp.is_some() && w.typ[0] != 7); // first of its type is not the first tag
+    kani::cover!(w.n >= 2 && w.typ[0] == 7 && w.typ[1] == 7); // duplicate: the first one wins
+}
+#[kani::proof]
+#[kani::unwind(6)]
+pub fn k_mb2hdr_get_efi32_40() {
+    let (w, exp) = getter_body!(40, entry_address_efi32_tag, 8, 1, t, b, off, {});
+    kani::cover!(exp.is_none() && w.n >= 1); // absent
+    kani::cover!(exp == Some(16)); // present as the first tag
+    kani::cover!(exp.is_some() && w.typ[0] != 8); // first of its type is not the first tag
+}
+#[kani::proof]
+#[kani::unwind(6)]
+pub fn k_mb2hdr_get_efi32_48() {
+    let (w, exp) = getter_body!(48, entry_address_efi32_tag, 8, 1, t, b, off, {});
+    kani::cover!(exp.is_none() && w.n >= 1); // absent
+    kani::cover!(exp == Some(16)); // present as the first tag
+    kani::cover!(exp.is_some() && w.typ[0] != 8); // first of its type is not the first tag
+    kani::cover!(w.n >= 2 && w.typ[0] == 8 && w.typ[1] == 8); // duplicate: the first one wins
+}
+#[kani::proof]
+#[kani::unwind(6)]
+pub fn k_mb2hdr_get_efi64_40() {
+    let (w, exp) = getter_body!(40, entry_address_efi64_tag, 9, 1, t, b, off, {});
+    kani::cover!(exp.is_none() && w.n >= 1); // absent
+    kani::cover!(exp == Some(16)); // present as the first tag
+    kani::cover!(exp.is_some() && w.typ[0] != 9); // first of its type is not the first tag
+}
+#[kani::proof]
+#[kani::unwind(6)]
+pub fn k_mb2hdr_get_efi64_48() {
+    let (w, exp) = getter_body!(48, entry_address_efi64_tag, 9, 1, t, b, off, {});
+    kani::cover!(exp.is_none() && w.n >= 1); // absent
+    kani::cover!(exp == Some(16)); // present as the first tag
+    kani::cover!(exp.is_some() && w.typ[0] != 9); // first of its type is not the first tag
+    kani::cover!(w.n >= 2 && w.typ[0] == 9 && w.typ[1] == 9); // duplicate: the first one wins
+}
+#[kani::proof]
+#[kani::unwind(6)]
+pub fn k_mb2hdr_get_relocatable_40() {
+    let (w, exp) = getter_body!(40, relocatable_tag, 10, 1, t, b, off, {
+        assert!(t.preference() as u32 == le32(b, off + 20) && t.min_addr() == le32(b, off + 8));
+    });
+    kani::cover!(exp.is_none() && w.n >= 1); // absent
+    kani::cover!(exp == Some(16)); // present as the first tag
+}
+#[kani::proof]
+#[kani::unwind(6)]
+pub fn k_mb2hdr_get_relocatable_48() {
+    let (w, exp) = getter_body!(48, relocatable_tag, 10, 1, t, b, off, {
+        assert!(t.preference() as u32 == le32(b, off + 20) && t.min_addr() == le32(b, off + 8));
+    });
+    kani::cover!(exp.is_none() && w.n >= 1); // absent
+    kani::cover!(exp == Some(16)); // present as the first tag
+    kani::cover!(exp.is_some() && w.typ[0] != 10); // first of its type is not the first tag
 }
 
 // ---------------------------------------------------------------- C09 malformed tag sizes
